@@ -102,7 +102,8 @@ def _win(a, window, flip):
     return np.ascontiguousarray(a)
 
 
-def datasets(arr, disp, rdisp="none", window=None, keep_coords=False, flip=False, swap=False, gridseed=0):
+def datasets(arr, disp, rdisp="none", window=None, keep_coords=False, flip=False, swap=False, gridseed=0,
+             layout="C"):
     """
     :param arr: result of `arrays`
     :param disp: [a, b] scalar interval, or {"grid": [a, b]} for per-pixel grids (then right grids inside
@@ -114,6 +115,9 @@ def datasets(arr, disp, rdisp="none", window=None, keep_coords=False, flip=False
     :param flip: flip everything vertically
     :param swap: exchange the two views: the right image - with its mask and its disparities, i.e. the negated
         and swapped interval - becomes the left one and vice versa.  The images are NOT flipped left-right.
+    :param layout: memory layout of the image and mask arrays handed over ("C", "F", "tile", "strided": see
+        datasets.relayout) - the same values, as a caller who cuts tiles out of a large array without copying,
+        or holds column-major arrays, would pass them
     :return: (left dataset, right dataset) for `pandora.run`
     """
     ny, nx = arr["L"].shape[-2:]
@@ -138,6 +142,8 @@ def datasets(arr, disp, rdisp="none", window=None, keep_coords=False, flip=False
                    origin=origin)
     right = D.image(_win(arr["R"], window, flip), disp=dr, msk=_win(arr["mR"], window, flip), bands=bands,
                     origin=origin)
+    D.relayout_dataset(left, layout)
+    D.relayout_dataset(right, layout)
     if swap:
         return right, left
     return left, right
